@@ -31,6 +31,7 @@ func init() {
 	register("C20", true, checkC20)
 	register("C07", true, checkC07)
 	register("C17", true, checkC17)
+	register("C18", true, checkC18)
 }
 
 func main() {
